@@ -320,6 +320,9 @@ func (in *Interp) ensureInit(pkg *ssa.Package) {
 	}
 	for _, pre := range []string{"runtime", "reflect", "os", "syscall", "crypto/", "net/", "sync", "log", "encoding/json",
 		"testing", "golang.org/x/sys", "vendor/", "unsafe", "context", "io/fs", "path", "hash", "compress", "mime", "html", "text/", "go/"} {
+		if pp == "net/url" {
+			break
+		}
 		if pp == pre || strings.HasPrefix(pp, pre) && (strings.HasSuffix(pre, "/") || len(pp) == len(pre) || pp[len(pre)] == '/') {
 			return
 		}
